@@ -1,4 +1,5 @@
-"""Family "ranksel": rank / select structures (spec/RankSel.tla, RankDesign.tla, SelectDesign.tla)."""
+"""Family "ranksel": rank / select structures (spec/RankSel.tla; design models RankDesign.tla,
+SelectDesign.tla, Select9Design.tla, SelectSmallDesign.tla)."""
 import gen_ranksel as g
 
 FAMILY = "ranksel"
@@ -19,7 +20,9 @@ def mc(prop, tier):
                 ("MC_SelectDesign", "MC_SelectDesign_q.cfg" if q else "MC_SelectDesign_t.cfg",
                  ["MC_SelectDesign.BuildAdapt"]),
                 ("MC_Select9Design", "MC_Select9Design_q.cfg" if q else "MC_Select9Design_t.cfg",
-                 ["MC_Select9Design.BuildSelect9"])] + \
+                 ["MC_Select9Design.BuildSelect9"]),
+                ("MC_SelectSmallDesign", "MC_SelectSmallDesign_q.cfg" if q else "MC_SelectSmallDesign_t.cfg",
+                 ["MC_SelectSmallDesign.Pick", "MC_SelectSmallDesign.BuildSmall"])] + \
             ([] if q else [("MC_SelectDesign", "MC_SelectDesign_t2.cfg", ["MC_SelectDesign.BuildAdapt"])])
     if prop == "C11":
         return [small, ("MC_RankDesign", "MC_RankDesign_q.cfg", ["MC_RankDesign.Build"])] + \
@@ -38,7 +41,7 @@ def exports(prop, tier):
 
 def episodes(prop, tier, seed):
     q = tier == "quick"
-    scale = 1 if q else 6
+    scale = 2 if q else 8
     out = {}
     if prop == "C01":
         out["recipes"] = (g.main_episodes(seed, {"rank"}, None, scale), "verif")
@@ -52,6 +55,7 @@ def episodes(prop, tier, seed):
         out["mem"] = (g.c11_episodes(seed, scale), "verif")
     if prop == "C12":
         out["ood"] = (g.c12_episodes(seed, 1 if q else 3), "verif")
+        out["ood-small"] = (g.main_episodes(seed + 12, {"rank", "select"}, None, 1)[:60], "verif")
         if not q:
             out["ood-release"] = (g.c12_episodes(seed + 1, 1), "release")
     if prop == "C15":
